@@ -25,6 +25,9 @@ import (
 // findingOpts returns the descriptor options with shapes of still-open known findings excluded.
 func findingOpts(r *Recorder) gen.Opts {
 	o := gen.DefaultOpts()
+	if os.Getenv("VERIF_TIER") == "thorough" {
+		o.MaxMessages, o.MaxFields = 10, 12 // the bounds of DESIGN.md §3.1; the quick tier keeps files smaller
+	}
 	applyKnownFindings(&o)
 	return o
 }
